@@ -1,7 +1,267 @@
-import StepModel.PyAgg
-import StepModel.PyAggSpec
-namespace StepModel.PyAgg
+import StepModel.PyAggRefine
+/-!
+# C19 — the Python aggregates enforce EXPRESS aggregate semantics
 
-theorem C19_stub : (Agg.new ⟨.bag, 0, none, 0, false, false⟩).isOk = true := rfl
+Model: `StepModel.PyAgg` (ARRAY/LIST/BAG/SET of src/exp2python/python/stepcode/AggregationDataTypes.py, with the
+bound arithmetic regenerated from the source into `Generated/PyAggGen.lean`).
+Specification: `StepModel.Spec.Aggregate` (`PyAggSpec.lean`): EXPRESS values as function / sequence / sorted multiset /
+sorted set, and the acceptance rule of each operation.
+
+All statements quantify over every declaration `d` (every bound pair including the indeterminate upper bound, both
+flags, every base type tag), every element value and every history `ops`; nothing is bounded.
+-/
+namespace StepModel.PyAgg
+open StepModel.Spec.Aggregate
+open StepModel.Generated
+
+/-- states reachable from the constructor by any history -/
+def Reachable (d : Decl) (s : Agg) : Prop := ∃ s0 ops, Agg.new d = .ok s0 ∧ s = s0.after ops
+
+theorem reachable_inv {d : Decl} {s : Agg} (h : Reachable d s) : Inv d s := by
+  rcases h with ⟨s0, ops, hnew, rfl⟩
+  exact inv_after d s0 ((agg_new d).1 s0 hnew).2.2 ops
+
+/-! ## construction -/
+
+/-- The constructor accepts a declaration exactly when EXPRESS does (ARRAY: determinate `lo ≤ hi`; LIST/BAG/SET:
+`0 ≤ lo`, and `lo ≤ hi` unless `hi` is indeterminate). -/
+theorem C19_construction_accepted_iff_legal (d : Decl) : (∃ s, Agg.new d = .ok s) ↔ legal d = true := by
+  have h := agg_new d
+  constructor
+  · rintro ⟨s, hs⟩; exact (h.1 s hs).1
+  · intro hl
+    cases hn : Agg.new d with
+    | ok s => exact ⟨s, rfl⟩
+    | error e => have := h.2 e hn; rw [hl] at this; cases this
+
+/-- A freshly constructed object stands for the initial EXPRESS value (all ARRAY elements indeterminate; empty
+LIST/BAG/SET). -/
+theorem C19_construction_initial (d : Decl) (s : Agg) (h : Agg.new d = .ok s) : abs s = initial d :=
+  ((agg_new d).1 s h).2.1
+
+/-! ## one operation -/
+
+/-- Refinement, one step: on every reachable state, every operation is answered exactly as EXPRESS answers it on the
+value the object stands for (accepted or refused, value read, size, bounds, indices, uniqueness), and the object then
+stands for EXPRESS's resulting value. -/
+theorem C19_step_refines (d : Decl) (s : Agg) (h : Reachable d s) (op : Op) :
+    step d (abs s) op = (abs (s.step op).1, (s.step op).2.obs) :=
+  (agg_sim d s (reachable_inv h) op).1
+
+/-- An operation is refused by the code exactly when EXPRESS refuses it. -/
+theorem C19_refused_iff (d : Decl) (s : Agg) (h : Reachable d s) (op : Op) :
+    (s.step op).2.obs = .refused ↔ (step d (abs s) op).2 = .refused := by
+  rw [C19_step_refines d s h op]
+
+/-! ## all histories -/
+
+/-- Refinement, all histories: construction followed by any sequence of operations yields, answer by answer, what
+EXPRESS yields for the same declaration and operations; a declaration is refused by both or by neither. -/
+theorem C19_refines_all_histories (d : Decl) (ops : List Op) :
+    (match Agg.new d with
+      | .ok s => some (s.run ops)
+      | .error _ => none) = runDecl d ops := by
+  have h := agg_new d
+  unfold runDecl
+  cases hn : Agg.new d with
+  | ok s =>
+    have hs := h.1 s hn
+    simp only [hs.1, if_true]
+    rw [← hs.2.1, run_eq d s hs.2.2 ops]
+  | error e =>
+    have := h.2 e hn
+    simp [this]
+
+/-! ## the acceptance rules spelled out (corollaries of `C19_step_refines`) -/
+
+/-- ARRAY item assignment is accepted iff the index is within the declared bounds, the element is of the base type,
+and for UNIQUE no *other* index holds the same value. -/
+theorem C19_array_set_accepted_iff (d : Decl) (a : Arr) (h : Reachable d (.arr a)) (i : Int) (x : Val) :
+    (a.set i x).2 = .ok ↔
+      (d.lo ≤ i ∧ i ≤ a.hi ∧ x.ty = d.base ∧
+        (d.unique = true → ∀ j ∈ indices d.lo a.hi, j ≠ i → absArr a j ≠ some x)) := by
+  have hi : ArrInv d a := reachable_inv h
+  have hs := (arr_set_sim d a hi i x).1
+  simp only [step, hi.hi] at hs
+  change _ ↔ arraySetAllowed d a.hi (absArr a) i x
+  by_cases hal : arraySetAllowed d a.hi (absArr a) i x
+  · rw [if_pos hal] at hs
+    have : (a.set i x).2.obs = .ok := (congrArg Prod.snd hs).symm
+    constructor
+    · intro _; exact hal
+    · intro _; cases hr : (a.set i x).2 <;> simp [hr, R.obs] at this ⊢
+  · rw [if_neg hal] at hs
+    have : (a.set i x).2.obs = .refused := (congrArg Prod.snd hs).symm
+    constructor
+    · intro hok; rw [hok] at this; simp [R.obs] at this
+    · intro hh; exact absurd hh hal
+
+/-- ARRAY item read: refused outside the bounds; an element that was never assigned is readable only when the ARRAY
+is OPTIONAL (and then reads as indeterminate); otherwise the last value assigned to that index is returned. -/
+theorem C19_array_get_answer (d : Decl) (a : Arr) (h : Reachable d (.arr a)) (i : Int) :
+    (a.get i).obs =
+      if d.lo ≤ i ∧ i ≤ a.hi ∧ (d.optional = true ∨ absArr a i ≠ none) then
+        (match absArr a i with | some x => .val x | none => .unset)
+      else .refused := by
+  have hi : ArrInv d a := reachable_inv h
+  have hs := arr_get_sim d a hi i
+  simp only [step, hi.hi] at hs
+  by_cases hal : arrayGetAllowed d a.hi (absArr a) i
+  · rw [if_pos hal] at hs
+    have hal' : d.lo ≤ i ∧ i ≤ a.hi ∧ (d.optional = true ∨ absArr a i ≠ none) := hal
+    rw [if_pos hal']; exact (congrArg Prod.snd hs).symm
+  · rw [if_neg hal] at hs
+    have hal' : ¬ (d.lo ≤ i ∧ i ≤ a.hi ∧ (d.optional = true ∨ absArr a i ≠ none)) := hal
+    rw [if_neg hal']; exact (congrArg Prod.snd hs).symm
+
+/-- An unset ARRAY element is readable only when the ARRAY is OPTIONAL. -/
+theorem C19_array_unset_only_optional (d : Decl) (a : Arr) (h : Reachable d (.arr a)) (i : Int)
+    (hu : (a.get i).obs = .unset) : d.optional = true := by
+  rw [C19_array_get_answer d a h i] at hu
+  split at hu
+  · rename_i hc
+    rcases hc.2.2 with ho | hne
+    · exact ho
+    · cases hv : absArr a i with
+      | none => exact absurd hv hne
+      | some x => rw [hv] at hu; cases hu
+  · cases hu
+
+/-- LIST item assignment is accepted iff `1 ≤ i ≤ SIZEOF+1`, growing the list (`i = SIZEOF+1`) keeps it within the
+upper bound, the element is of the base type, and for UNIQUE no *other* position holds the same value. -/
+theorem C19_list_set_accepted_iff (d : Decl) (l : Lst) (h : Reachable d (.lst l)) (i : Int) (x : Val) :
+    (l.set i x).2 = .ok ↔ listSetAllowed d l.cells i x := by
+  have hi : LstInv d l := reachable_inv h
+  have hs := (lst_set_sim d l hi i x).1
+  simp only [step] at hs
+  by_cases hal : listSetAllowed d l.cells i x
+  · rw [if_pos hal] at hs
+    have : (l.set i x).2.obs = .ok := (congrArg Prod.snd hs).symm
+    constructor
+    · intro _; exact hal
+    · intro _; cases hr : (l.set i x).2 <;> simp [hr, R.obs] at this ⊢
+  · rw [if_neg hal] at hs
+    have : (l.set i x).2.obs = .refused := (congrArg Prod.snd hs).symm
+    constructor
+    · intro hok; rw [hok] at this; simp [R.obs] at this
+    · intro hh; exact absurd hh hal
+
+/-- BAG `add` is accepted iff the element is of the base type and the bag stays within its upper bound. -/
+theorem C19_bag_add_accepted_iff (d : Decl) (b : Bag) (h : Reachable d (.bag b)) (x : Val) :
+    (b.add x).2 = .ok ↔ (x.ty = d.base ∧ withinUpper d (b.cells.length + 1)) := by
+  have hi : BagInv d b := reachable_inv h
+  have hs := (bag_add_sim d b hi x).1
+  simp only [step] at hs
+  have hiff : bagAddAllowed d (sortL b.cells) x ↔ (x.ty = d.base ∧ withinUpper d (b.cells.length + 1)) := by
+    unfold bagAddAllowed; rw [length_sortL]
+  rw [← hiff]
+  by_cases hal : bagAddAllowed d (sortL b.cells) x
+  · rw [if_pos hal] at hs
+    have : (b.add x).2.obs = .ok := (congrArg Prod.snd hs).symm
+    constructor
+    · intro _; exact hal
+    · intro _; cases hr : (b.add x).2 <;> simp [hr, R.obs] at this ⊢
+  · rw [if_neg hal] at hs
+    have : (b.add x).2.obs = .refused := (congrArg Prod.snd hs).symm
+    constructor
+    · intro hok; rw [hok] at this; simp [R.obs] at this
+    · intro hh; exact absurd hh hal
+
+/-- SET `add` is accepted iff the element is of the base type and is either already a member (the set is then left
+as it is) or fits within the upper bound. -/
+theorem C19_set_add_accepted_iff (d : Decl) (s : PSet) (h : Reachable d (.set s)) (x : Val) :
+    (s.add x).2 = .ok ↔ (x.ty = d.base ∧ (x ∈ s.cells ∨ withinUpper d (s.cells.length + 1))) := by
+  have hi : SetInv d s := reachable_inv h
+  have hs := (set_add_sim d s hi x).1
+  simp only [step] at hs
+  have hiff : setAddAllowed d (sortL s.cells) x ↔
+      (x.ty = d.base ∧ (x ∈ s.cells ∨ withinUpper d (s.cells.length + 1))) := by
+    unfold setAddAllowed; rw [length_sortL, mem_sortL]
+  rw [← hiff]
+  by_cases hal : setAddAllowed d (sortL s.cells) x
+  · rw [if_pos hal] at hs
+    have : (s.add x).2.obs = .ok := (congrArg Prod.snd hs).symm
+    constructor
+    · intro _; exact hal
+    · intro _; cases hr : (s.add x).2 <;> simp [hr, R.obs] at this ⊢
+  · rw [if_neg hal] at hs
+    have : (s.add x).2.obs = .refused := (congrArg Prod.snd hs).symm
+    constructor
+    · intro hok; rw [hok] at this; simp [R.obs] at this
+    · intro hh; exact absurd hh hal
+
+/-! ## invariants of every reachable state -/
+
+/-- No more elements than the upper bound: after any history the size a LIST/BAG/SET reports is within the declared
+upper bound. -/
+theorem C19_size_within_upper (d : Decl) (s : Agg) (h : Reachable d s) (hk : d.kind ≠ .array) (n : Int)
+    (hn : (s.step .size).2 = .int n) : ∀ b, d.hi = some b → n ≤ b := by
+  have hi := reachable_inv h
+  intro b hb
+  cases s with
+  | arr a => exact absurd (show ArrInv d a from hi).kind hk
+  | lst l =>
+    have := (show LstInv d l from hi).upper b hb
+    simp only [Agg.step, Lst.step, R.int.injEq] at hn; omega
+  | bag bg =>
+    have := (show BagInv d bg from hi).upper b hb
+    simp only [Agg.step, Bag.step, R.int.injEq] at hn; omega
+  | set st =>
+    have := (show SetInv d st from hi).upper b hb
+    simp only [Agg.step, PSet.step, R.int.injEq] at hn; omega
+
+/-- The reported size is the number of elements of the EXPRESS value (ARRAY: `hi - lo + 1`). -/
+theorem C19_size_is_sizeof (d : Decl) (s : Agg) (h : Reachable d s) :
+    (s.step .size).2.obs = (step d (abs s) .size).2 := by
+  rw [C19_step_refines d s h .size]
+
+/-- A SET never holds a duplicate, after any history. -/
+theorem C19_set_never_duplicates (d : Decl) (s : PSet) (h : Reachable d (.set s)) : s.cells.Nodup :=
+  (show SetInv d s from reachable_inv h).nodup
+
+/-- Every element stored in a SET is of the declared base type, after any history. -/
+theorem C19_set_elements_typed (d : Decl) (s : PSet) (h : Reachable d (.set s)) : ∀ x ∈ s.cells, x.ty = d.base :=
+  (show SetInv d s from reachable_inv h).typed
+
+/-- A refused operation leaves the aggregate's value as it was. -/
+theorem C19_refused_keeps_value (d : Decl) (s : Agg) (h : Reachable d s) (op : Op)
+    (hr : (s.step op).2.obs = .refused) : abs (s.step op).1 = abs s := by
+  have hs := C19_step_refines d s h op
+  have h2 : (step d (abs s) op).2 = .refused := by rw [hs]; exact hr
+  have h1 : (step d (abs s) op).1 = abs (s.step op).1 := by rw [hs]
+  rw [← h1]
+  generalize abs s = v at h2 ⊢
+  cases v with
+  | array a =>
+    simp only [step] at h2 ⊢
+    cases hh : d.hi with
+    | none => rfl
+    | some b =>
+      simp only [hh] at h2 ⊢
+      cases op <;> simp only at h2 ⊢ <;> first | rfl | (split <;> first | rfl | (rename_i hc; simp [hc] at h2))
+  | list l =>
+    simp only [step] at h2 ⊢
+    cases op <;> simp only at h2 ⊢ <;> first | rfl | (split <;> first | rfl | (rename_i hc; simp [hc] at h2))
+  | bag b =>
+    simp only [step] at h2 ⊢
+    cases op <;> simp only at h2 ⊢ <;> first | rfl | (split <;> first | rfl | (rename_i hc; simp [hc] at h2))
+  | set s =>
+    simp only [step] at h2 ⊢
+    cases op <;> simp only at h2 ⊢ <;> first | rfl | (split <;> first | rfl | (rename_i hc; simp [hc] at h2))
+
+/-! ## the hypotheses are satisfiable, the specification discriminates -/
+
+example : Reachable ⟨.bag, 0, some 2, 0, false, false⟩
+    ((Agg.bag ⟨0, some 2, 0, []⟩).after [.add ⟨0, 1⟩, .add ⟨0, 1⟩]) :=
+  ⟨.bag ⟨0, some 2, 0, []⟩, [.add ⟨0, 1⟩, .add ⟨0, 1⟩], rfl, rfl⟩
+
+/-- EXPRESS refuses the third element of a `BAG [0:2]`, the second equal element of a UNIQUE LIST, index 0 of a LIST,
+and accepts an idempotent overwrite in a UNIQUE ARRAY (the four shapes of DESIGN §6 row 18). -/
+example : runDecl ⟨.bag, 0, some 2, 0, false, false⟩ [.add ⟨0, 0⟩, .add ⟨0, 1⟩, .add ⟨0, 2⟩, .size]
+    = some [.ok, .ok, .refused, .int 2] := by decide
+example : runDecl ⟨.list, 1, some 3, 0, true, false⟩ [.set 1 ⟨0, 0⟩, .set 1 ⟨0, 0⟩, .set 2 ⟨0, 0⟩, .set 0 ⟨0, 1⟩, .set 3 ⟨0, 1⟩]
+    = some [.ok, .ok, .refused, .refused, .refused] := by decide
+example : runDecl ⟨.array, 1, some 3, 0, true, false⟩ [.set 1 ⟨0, 0⟩, .set 1 ⟨0, 0⟩, .set 2 ⟨0, 0⟩, .get 3]
+    = some [.ok, .ok, .refused, .refused] := by decide
 
 end StepModel.PyAgg
